@@ -59,6 +59,9 @@ pub enum Step {
     /// the administrator removes user bob (`remove $$user_bob`): none of bob's credentials, and nothing that looks like
     /// what is left of them, opens the database afterwards
     RemoveBob,
+    /// the administrator writes (or, with an empty list, removes) the permission list of the name `all` in database d:
+    /// it is the list sessions opened with the database token are held to; without it they have every access
+    SetAllPerms { perms: String },
 }
 
 #[derive(Clone, Debug, Serialize, Deserialize)]
@@ -123,6 +126,7 @@ pub fn case_strategy() -> impl Strategy<Value = Case> {
             2 => prop_oneof![3 => select(PERMS.to_vec()), 1 => Just("")].prop_map(|p| Step::SetPerms { perms: p.to_string() }),
             1 => Just(Step::Snapshot),
             1 => Just(Step::RemoveBob),
+            1 => prop_oneof![2 => select(PERMS.to_vec()), 1 => Just("")].prop_map(|p| Step::SetAllPerms { perms: p.to_string() }),
         ];
         prop::collection::vec(step, 1..9).prop_map(move |steps| Case { kinds: kinds.clone(), bob_perms: perms.to_string(), steps })
     })
@@ -162,6 +166,7 @@ struct World {
     msessions: Vec<MSession>,
     bob_perms: String,
     bob_removed: bool,
+    all_perms: String,
 }
 
 fn token_for(kind: &Kind, db: &str, right: bool) -> String {
@@ -260,7 +265,7 @@ fn new_world(dir: &str, case: &Case) -> World {
     admin.drain();
     let sessions = case.kinds.iter().map(|_| Session::new()).collect();
     let msessions = case.kinds.iter().map(|_| MSession::default()).collect();
-    World { node, admin, sessions, msessions, bob_perms: case.bob_perms.clone(), bob_removed: false }
+    World { node, admin, sessions, msessions, bob_perms: case.bob_perms.clone(), bob_removed: false, all_perms: String::new() }
 }
 
 fn cur_value(node: &Node, db: &str, key: &str) -> String {
@@ -292,6 +297,19 @@ fn step(w: &mut World, kinds: &[Kind], st: &Step, flags: &mut Flags) -> Option<(
                 return Some(("C09|admin-setup-refused".into(), format!("remove $$user_bob -> {}", resp_text(&r))));
             }
             w.bob_removed = true;
+            None
+        }
+        Step::SetAllPerms { perms } => {
+            for sess in w.sessions.iter_mut() {
+                sess.drain();
+            }
+            let line = if perms.is_empty() { "remove $$permission_$all".to_string() } else { format!("set-permissions all {}", perms) };
+            let (r, _) = w.admin.send(&w.node, &line);
+            w.node.pump();
+            if is_refusal(&r) {
+                return Some(("C09|admin-setup-refused".into(), format!("{} -> {}", line, resp_text(&r))));
+            }
+            w.all_perms = perms.clone();
             None
         }
         Step::SetPerms { perms } => {
@@ -336,7 +354,11 @@ fn step(w: &mut World, kinds: &[Kind], st: &Step, flags: &mut Flags) -> Option<(
             let sel_user = ms.sel.as_ref().and_then(|s| s.1.clone());
             let user_perms = match sel_user.as_deref() {
                 Some("bob") => Some(w.bob_perms.clone()),
+                Some("all") if sel_db.as_deref() == Some("d") => Some(w.all_perms.clone()),
                 Some(_) => Some(String::new()),
+                // a session opened with the database token is held to the list of the name `all`, if there is one
+                // (an administrator who selected the database with its token is such a session, too)
+                None if sel_db.as_deref() == Some("d") && !w.all_perms.is_empty() => Some(w.all_perms.clone()),
                 None => None,
             };
             let mut access_kind: Option<char> = None;
@@ -381,7 +403,12 @@ fn step(w: &mut World, kinds: &[Kind], st: &Step, flags: &mut Flags) -> Option<(
                     } else if k == Some('i') && before.get(sel_db.as_ref().unwrap()).and_then(|m| m.get(key)).filter(|v| !v.2).map(|v| v.0.parse::<i32>().is_err()).unwrap_or(false) {
                         Expect::Refuse // not an integer: refused whoever asks
                     } else if ms.auth && sel_user.is_none() {
-                        Expect::Accept
+                        // (an administrator is held to the list of the name `all` like every session without a user name:
+                        // the property does not say either way, a refusal there is accepted)
+                        match &user_perms {
+                            Some(p) if !grants(p, k.unwrap(), key) => Expect::Either,
+                            _ => Expect::Accept,
+                        }
                     } else {
                         match &user_perms {
                             None => Expect::Accept, // database-token session
@@ -683,6 +710,19 @@ fn matrix() -> Vec<Case> {
                     out.push(Case { kinds: vec![Kind::UserBob], bob_perms: "rwix *".into(), steps });
                 }
             }
+        }
+    }
+    // the list of the name `all` is written, (snapshotted,) removed: sessions opened with the database token have every
+    // access again, as they had before it was written
+    for snapshot_first in [false, true] {
+        for word in ["get", "get-safe", "set", "set-safe", "remove", "increment", "watch"] {
+            let mut steps = vec![Step::Do { s: 0, cmd: Cmd::UseDb { db: "d".into(), right: true } }, Step::SetAllPerms { perms: "r c".into() }, Step::Do { s: 0, cmd: Cmd::Data { word: word.into(), key: "a".into() } }];
+            if snapshot_first {
+                steps.push(Step::Snapshot);
+            }
+            steps.push(Step::SetAllPerms { perms: String::new() });
+            steps.push(Step::Do { s: 0, cmd: Cmd::Data { word: word.into(), key: "a".into() } });
+            out.push(Case { kinds: vec![Kind::DbToken], bob_perms: "rwix *".into(), steps });
         }
     }
     // a removed user: none of its credentials opens the database any more, whether or not its key had reached the disk
